@@ -305,7 +305,7 @@ theorem eatKw_canon (ts : List Tok) (k : Nat) :
   | nil => rfl
   | cons t r => simp only [List.map_cons, eatKw, canon_isKw]; split <;> simp
 
-theorem eatKws_canon (ks : List Nat) : ∀ ts : List Tok,
+theorem eatKws_map_canon (ks : List Nat) : ∀ ts : List Tok,
     eatKws (ts.map canon) ks = (eatKws ts ks).map (fun p => (p.1.map canon, p.2.map canon)) := by
   induction ks with
   | nil => intro ts; simp [eatKws]
@@ -327,7 +327,7 @@ def IsPlan.mapT (m : Tok → Tok) : IsPlan → IsPlan
 
 theorem isTail_canon (ts : List Tok) : isTail (ts.map canon) = (isTail ts).map (IsPlan.mapT canon) := by
   unfold isTail
-  simp only [eatKws_canon]
+  simp only [eatKws_map_canon]
   repeat' split
   all_goals simp_all [IsPlan.mapT]
 
